@@ -184,8 +184,6 @@ func realHost(name string, wasm, fset []byte) string {
 	return s
 }
 
-var v8Corpus *v8x.V8
-
 func handleCorpus(j corpusJob) (res corpusResult) {
 	res.Name = j.Name
 	order := int64(1) << 40
@@ -360,19 +358,17 @@ func handleCorpus(j corpusJob) (res corpusResult) {
 			imps = append(imps, v8x.Import{Module: im.Module, Name: im.Name, Kind: "func", Results: rs})
 		}
 	}
-	if v8Corpus == nil {
-		v8Corpus, err = v8x.Start(mc.VerifDir())
-		if err != nil {
-			res.Err = "harness: " + err.Error()
-			return
-		}
+	v8c, err := workerV8()
+	if err != nil {
+		res.Err = "harness: " + err.Error()
+		return
 	}
 	mk := func(w []byte) v8x.Job {
 		jb := v8Job(w, calls, nil)
 		jb.Imports = imps
 		return jb
 	}
-	vr, err := v8Corpus.Exec([]v8x.Job{mk(ow), mk(sw)})
+	vr, err := v8c.Exec([]v8x.Job{mk(ow), mk(sw)})
 	if err != nil {
 		res.Err = "harness: " + err.Error()
 		return
